@@ -236,13 +236,13 @@ func streamC15(env *runEnv) {
 		}
 		// built directly: other keys, algorithms, issuers, expiry
 		type v struct {
-			kalg  jose.KeyAlgorithm
-			cenc  jose.ContentEncryption
-			key   []byte
-			cty   bool
-			salg  jose.SignatureAlgorithm
-			skey  []byte
-			c     uclaims
+			kalg       jose.KeyAlgorithm
+			cenc       jose.ContentEncryption
+			key        []byte
+			cty        bool
+			salg       jose.SignatureAlgorithm
+			skey       []byte
+			c          uclaims
 			kn, cn, sn string
 		}
 		ok := uclaims{Iss: "rdpgw", Sub: name, Exp: i64(now + 300)}
